@@ -507,6 +507,26 @@ func isIntSorted(v value) bool {
 	return ok && t.S.K == SInt
 }
 
+// intFits reports whether the mathematical integer t provably lies in the range
+// of the machine type (bw, signed) under the current path condition.
+func (w *Worker) intFits(t *Term, bw int, signed bool) bool {
+	lo, hi := new(big.Int), new(big.Int)
+	if signed {
+		lo.Neg(new(big.Int).Lsh(big.NewInt(1), uint(bw-1)))
+		hi.Sub(new(big.Int).Lsh(big.NewInt(1), uint(bw-1)), big.NewInt(1))
+	} else {
+		hi.Sub(new(big.Int).Lsh(big.NewInt(1), uint(bw)), big.NewInt(1))
+	}
+	if t.IsConst() {
+		return t.Big.Cmp(lo) >= 0 && t.Big.Cmp(hi) <= 0
+	}
+	if w.lenient || w.sol == nil {
+		return false
+	}
+	out := w.tc.Or(w.tc.IntCmp(OIntLt, t, w.tc.IntConst(lo)), w.tc.IntCmp(OIntLt, w.tc.IntConst(hi), t))
+	return w.sol.CheckWith(out) == Unsat
+}
+
 // asIntTerm lifts a machine integer value to a mathematical integer term.
 func (w *Worker) asIntTerm(v value, bw int, signed bool) *Term {
 	switch v := v.(type) {
@@ -545,7 +565,26 @@ func (w *Worker) intBinop(op token.Token, bw int, signed bool, ty types.Type, x,
 				return simp(w.tc.IntCmp(OIntLe, yt, xt))
 			}
 		}
-		// arithmetic: fall back to the bit-vector image
+		// + - * stay mathematical integers when the result provably fits the machine type on this path
+		if op == token.ADD || op == token.SUB || op == token.MUL {
+			xt, yt := w.asIntTerm(x, bw, signed), w.asIntTerm(y, bw, signed)
+			var r *Term
+			switch op {
+			case token.ADD:
+				r = w.tc.IntBin(OIntAdd, xt, yt)
+			case token.SUB:
+				r = w.tc.IntBin(OIntSub, xt, yt)
+			default:
+				r = w.tc.IntBin(OIntMul, xt, yt)
+			}
+			if w.intFits(r, bw, signed) {
+				if r.IsConst() {
+					return uint64(r.Big.Int64()) & mask(bw)
+				}
+				return r
+			}
+		}
+		// otherwise: fall back to the bit-vector image
 		if isIntSorted(x) {
 			x = simp(w.tc.Int2Bv(x.(*Term), bw))
 		}
@@ -875,7 +914,13 @@ func (w *Worker) conv(tdst, tsrc types.Type, x value) value {
 					}
 					return string(rune(sext64(c, sw)))
 				}
-				if dw, _, ok := intInfo(ud); ok {
+				if dw, dsigned, ok := intInfo(ud); ok {
+					if xt, isT := x.(*Term); isT && xt.S.K == SInt {
+						if w.intFits(xt, dw, dsigned) {
+							return xt
+						}
+						x = simp(w.tc.Int2Bv(xt, sw))
+					}
 					switch x := x.(type) {
 					case uint64:
 						if ssigned {
